@@ -492,15 +492,16 @@ def check_C04(tier, nproc=None):
     # tier 1: scanner on all strings and on long-literal templates
     N = 5 if tier == 'quick' else 7
     for n in range(0, N + 1):
-        c.add(Job('vH_FP_scan', [('bytes', 'd', n)], pkg=FP, weight=3 ** n))
+        c.add(Job('vH_FP_scan', [('bytes', 'd', n)], pkg=FP, weight=3 ** n, opts={'scanvalue': True}))
     D = 'digit'
     T = [[(18, D), 3], [b'-', (20, D), 1], [(2, D), b'.', (18, D), 1], [b'0.000', (17, D), 1], [(1, D), b'e', 1, (4, D), 1], [(3, D), b'.', (2, D), b'E-', (3, D), 1],
-         [(17, D), 1, (2, D), b'e+', (2, D)], [1, (2, D), 2, (2, D), 1]]
+         [(17, D), 1, (2, D), b'e+', (2, D)], [1, (2, D), 2, (2, D), 1],
+         [(3, D), b'e-12', 1], [(2, D), b'.', (2, D), b'E+7'], [b'-', (1, D), b'.', (19, D), b'e5'], [(20, D), b'e-3'], [b'0.', (20, D), b'E300']]
     if tier != 'quick':
         T += [[(22, D), 1], [(1, D), b'.', (21, D)], [b'0.', (22, D)], [(9, D), b'.', (11, D), b'e', (2, D), 1], [(1, D), b'e-', (6, D)], [b'-', 1, b'.', 1, b'e', 1, 1, 1],
               [(19, D), 1, (2, D)], [(16, D), 2, (3, D), 1]]
     for t in T:
-        c.add(Job('vH_FP_scan', [('tmpl', 'd', t)], pkg=FP, weight=4000))
+        c.add(Job('vH_FP_scan', [('tmpl', 'd', t)], pkg=FP, weight=4000, opts={'scanvalue': True}))
     # tier 3: Eisel-Lemire, one obligation set per table row (all 2^63 normalised mantissas per row)
     o = {'bits_intrinsics': True}
     rows = list(range(-348, 348))
